@@ -153,16 +153,24 @@ Proof. vm_compute. split; reflexivity. Qed.
    Wherever a field with a selection set occurs in the operation (under any nesting of fields and fragments: occ), the
    helper fields the sanitizer adds to its selection are registered for removal in the final table, at that field's
    path, for every type an object there can have (the field's type, or every possible type of an abstract one) ... *)
-Theorem helpers_added_to_a_field_are_registered : forall tm sc ss ip a n ty d x sub ip',
-  occ ss ip (SanField a n ty d (x :: sub)) ip' ->
+Theorem helpers_added_to_a_field_are_registered : forall tm sc ss a n ty d x sub ip',
+  occ ss [] (SanField a n ty d (x :: sub)) ip' ->
   forall f T, In f (added_for tm sc ip' a ty (x :: sub)) -> In T (reg_types sc ty) ->
   (* ... unless the client selected the field himself in the fragment on that very type *)
   (kind_of sc ty = KOther \/ frag_has (selection_for tm sc ip' a ty (x :: sub)) T f = false) ->
-  (* ... or, in any selection of that response key at that place, directly or through a fragment that applies to
-     objects of that type (since fixes 75235b9, 360a3f6: such a field is the client's own and stays in the answer) *)
-  (forall n' ty' d' sub', occ ss ip (SanField a n' ty' d' sub') ip' -> ~ selected_for (client_selected sc sub') T f) ->
-  In ((ip' ++ [a])%list, T, f) (snd (sanitize tm sc ss ip)).
+  (* ... or, in any selection of a field with that response path anywhere in the operation, directly or through a
+     fragment that applies to objects of that type (since fixes 75235b9, 360a3f6 and the one after them: such a field is
+     the client's own and stays in the answer) *)
+  (forall h, In ((ip' ++ [a])%list, h) (pending_of sc [] ss) -> ~ selected_for [h] T f) ->
+  In ((ip' ++ [a])%list, T, f) (snd (sanitize_op tm sc ss)).
 Proof. exact added_helpers_are_registered. Qed.
+(* ... and the other way round: what the client selects himself below a field, in any of its selections, for all or for
+   some types, is not registered for removal under that field's response path for those types *)
+Theorem what_the_client_selects_himself_is_not_scrubbed : forall tm sc ss a n ty d x sub ip' h T,
+  occ ss [] (SanField a n ty d (x :: sub)) ip' -> In h (client_selected sc (x :: sub)) ->
+  (fst h = Some T \/ fst h = None) ->
+  ~ In ((ip' ++ [a])%list, T, snd h) (snd (sanitize_op tm sc ss)).
+Proof. exact client_selected_helpers_stay. Qed.
 (* ... what is added are `__typename` and `id` only, and only when the client did not select the field on that level *)
 Theorem only_the_two_helpers_are_added : forall tm sc ss t is_fragment f,
   In f (snd (add_scrub_fields tm sc ss t is_fragment)) -> f = "__typename" \/ f = "id".
@@ -205,6 +213,7 @@ Example c02_nonvacuous :
 Proof. reflexivity. Qed.
 
 Print Assumptions argument_variables_listed.
+Print Assumptions what_the_client_selects_himself_is_not_scrubbed.
 Print Assumptions directive_argument_variables_listed.
 Print Assumptions listed_variables_forwarded.
 Print Assumptions forwarded_values_unchanged.
